@@ -104,7 +104,7 @@ Definition kind_justified (s : site) : bool :=
   | (CModuleMutable | CClassMutable | CMutableDefault), SeedNA, ReadOnlyConstant => true
   | CSetIter, SeedNA, ReadOnlyConstant => true       (* order-insensitive reduction only *)
   | CEnvRead, SeedNA, ReadOnlyConstant => true       (* the guard of the verification probe only *)
-  | CPrintState, SeedNA, ReadOnlyConstant => true    (* max_line_width, threshold, edgeitems, legacy all pinned *)
+  | CPrintState, SeedNA, ReadOnlyConstant => true    (* every layout option pinned in the call or by an enclosing `with np.printoptions(...)` *)
   | CPrintState, SeedNA, LoggingOnly => true         (* inside a display-only function (__str__/__repr__/formatting) *)
   | _, _, _ => false
   end.
